@@ -900,13 +900,15 @@ pub fn canonicalize_query_to_string(query_parameters: &HashMap<String, Vec<Strin
         // Don't include the signature itself.
         if key != X_AMZ_SIGNATURE {
             for value in values.iter() {
-                results.push(format!("{}={}", key, value));
+                results.push((key.as_str(), value.as_str()));
             }
         }
     }
 
+    // Sort by parameter name, then by value; sorting the rendered "name=value" strings would misplace a name that
+    // is a prefix of another name followed by a character below '=' (e.g. "a" and "a-b").
     results.sort_unstable();
-    results.join("&")
+    results.iter().map(|(key, value)| format!("{}={}", key, value)).collect::<Vec<_>>().join("&")
 }
 
 /// Normalizes the specified URI path, removing redundant slashes and relative path components (unless performing S3
